@@ -149,13 +149,14 @@ def c10_jobs(tier):
         for d in (1, 3, 4):
             js.append(job("C10.cpp", "C10_s%d_d%d" % (o, d), ["-DVORDER=%d" % o, "-DVDIM=%d" % d], shards=1, weight=o * d))
         js.append(job("opt_hist.cpp", "C10_ws_s%d" % o, ["-DVPROP=10", "-DVORDER=%d" % o], shards=1, weight=30))
+        js.append(job("opt_hist.cpp", "C10_optobj_s%d" % o, ["-DVPROP=9", "-DVORDER=%d" % o], shards=1, weight=20))   # optimizer OBJECT histories (same binary as C09's history part)
     return js
 
 CHECKS["C10"] = {
     "engine": "E2 history explorer",
     "jobs": c10_jobs,
-    "rule": "state = history over {update by durations / by time points with 5 problems (N = 1, 2, 3, 5 whose durations are bit-identical prefixes of one another, and N = 3' with other durations), getEnergy, getEnergyGrad, partial gradients, propagateGrad(unit / dense), evaluate grid} on one spline object; after EVERY transition ALL observables (coefficients, knot times, energy, energy gradients, partials, propagateGrad for two upstream vectors, evaluations at all orders) are compared bitwise with a freshly constructed spline given only the latest inputs; canonical key = every private member incl. factor caches and workspaces; optimizer workspaces: one Workspace shared by evaluations of four optimizers (A: N=2 / B: N=4 / C: N=2 with other data, flags, start time and energy weight / D: identical to A except for the FIXED boundary accelerations/jerk, evaluated at A's bit-identical decision vectors) x 2 decision vectors x {2-cost, 3-cost overload}: after EVERY history every possible next call on the reused workspace equals the same call on a fresh workspace (cost, gradient, workspace spline; bitwise); non-trivial = histories of length >= 2",
-    "bounds": {"quick": "splines: 3 orders x DIM {1,3,4}: BFS to depth 6 or fixpoint; workspaces: 3 orders, BFS to depth 4", "thorough": "splines: BFS to depth 10 or fixpoint; workspaces: 3 orders, BFS to depth 5 or fixpoint"},
+    "rule": "state = history over {update by durations / by time points with 5 problems (N = 1, 2, 3, 5 whose durations are bit-identical prefixes of one another, and N = 3' with other durations), getEnergy, getEnergyGrad, partial gradients, propagateGrad(unit / dense), evaluate grid} and hinted evaluations that keep the caller-held hint across updates (inside the first segment / every knot ascending / end time) on one spline object; after EVERY transition ALL observables (evaluations of the long-lived object go through the hinted overload starting from the current hint; the fresh object is queried un-hinted) (coefficients, knot times, energy, energy gradients, partials, propagateGrad for two upstream vectors, evaluations at all orders) are compared bitwise with a freshly constructed spline given only the latest inputs; canonical key = every private member incl. factor caches and workspaces; optimizer workspaces: one Workspace shared by evaluations of four optimizers (A: N=2 / B: N=4 / C: N=2 with other data, flags, start time and energy weight / D: identical to A except for the FIXED boundary accelerations/jerk, evaluated at A's bit-identical decision vectors) x 2 decision vectors x {2-cost, 3-cost overload}: after EVERY history every possible next call on the reused workspace equals the same call on a fresh workspace (cost, gradient, workspace spline; bitwise); non-trivial = histories of length >= 2",
+    "bounds": {"quick": "splines: 3 orders x DIM {1,3,4}: BFS to depth 6 or fixpoint; workspaces: 3 orders, BFS to depth 4; optimizer objects (setter/query/re-initialisation histories, fresh-object oracle): 3 orders, BFS to depth 5", "thorough": "splines: BFS to depth 10 or fixpoint; workspaces: 3 orders, BFS to depth 5 or fixpoint; optimizer objects: BFS to depth 8 or fixpoint"},
     "thresholds": {"all comparisons": "bitwise"},
     "assumptions": ASSUME_COMMON + ["canonical key reads private members through -fno-access-control"],
     "technique": TECH_E2 + "; oracle = fresh-object differential (R5), bitwise",
@@ -253,9 +254,10 @@ CHECKS["C12"] = {
 
 CHECKS["C15"] = {
     "engine": "E2 history explorer under AddressSanitizer",
-    "jobs": lambda tier: [job("opt_hist.cpp", "C15_s%d" % o, ["-DVPROP=15", "-DVORDER=%d" % o], shards=1, flags=["-fsanitize=address", "-fno-omit-frame-pointer"], env={"ASAN_OPTIONS": "detect_leaks=0:abort_on_error=1"}) for o in (2, 3, 4)],
-    "rule": "the optimizer is instantiated with STATEFUL harness maps as its default map types (the bundled default maps are empty structs, so a dangling pointer to one would never be dereferenced); heap-allocated optimizers A, B and two user maps; ops {setInitState (2 problems), setTimeMap(user/null), setSpatialMap(user/null), evaluate (creates the built-in workspace), B = new copy of A, B = A (also over a B that owns a workspace), A = A, delete A and continue with the copy, swap, mutate the copy, change the user maps' parameters}; after EVERY transition: pointer roles are as modelled (each active map is the optimizer's OWN default map or the user map, built-in workspaces are not shared), every live optimizer evaluates bit-identically to a freshly configured equivalent one, copies remain usable through their own built-in workspace, AddressSanitizer silent; canonical key = all private members (pointers by role) + workspace contents",
-    "bounds": {"quick": "3 orders, BFS to depth 5 (all histories of length <= 3 without de-duplication)", "thorough": "3 orders, BFS to depth 8 or fixpoint (all histories of length <= 4 without de-duplication)"},
+    "jobs": lambda tier: [job("opt_hist.cpp", "C15_s%d" % o, ["-DVPROP=15", "-DVORDER=%d" % o], shards=1, flags=["-fsanitize=address", "-fno-omit-frame-pointer"], env={"ASAN_OPTIONS": "detect_leaks=0:abort_on_error=1"}) for o in (2, 3, 4)]
+                         + [job("C11.cpp", "C15_splinecopies_w%d" % w, ["-DVWORLD=%d" % w], shards=1) for w in (3, 4, 5)],   # spline copies: the spline worlds of C11 (S2 = S1, copy-ctor, copy getters, then updates of either side)
+    "rule": "(spline half: the cubic/quintic/septic copy worlds of C11 -- copy construction, assignment, self-assignment, getTrajectoryCopy()/getPPolyCopy() must return distinct objects that survive an update of the source, updates of either side never show through the other) the optimizer is instantiated with STATEFUL harness maps as its default map types (the bundled default maps are empty structs, so a dangling pointer to one would never be dereferenced); heap-allocated optimizers A, B and two user maps; ops {setInitState (2 problems), setTimeMap(user/null), setSpatialMap(user/null), evaluate (creates the built-in workspace), B = new copy of A, B = A (also over a B that owns a workspace), A = A, delete A and continue with the copy, swap, mutate the copy, change the user maps' parameters}; after EVERY transition: pointer roles are as modelled (each active map is the optimizer's OWN default map or the user map, built-in workspaces are not shared), every live optimizer evaluates bit-identically to a freshly configured equivalent one, copies remain usable through their own built-in workspace, AddressSanitizer silent; canonical key = all private members (pointers by role) + workspace contents",
+    "bounds": {"quick": "optimizers: 3 orders, BFS to depth 5 (all histories of length <= 3 without de-duplication); spline copies: 3 orders, BFS to depth 6", "thorough": "optimizers: 3 orders, BFS to depth 8 or fixpoint (all histories of length <= 4 without de-duplication); spline copies: BFS to depth 20 or fixpoint"},
     "thresholds": {"all comparisons": "bitwise"},
     "assumptions": ASSUME_OPT + ["g++ AddressSanitizer as the oracle for use-after-free of a destroyed source optimizer", "pointer roles are read through -fno-access-control"],
     "technique": TECH_E2 + "; oracle = fresh-object differential + pointer-role model + AddressSanitizer",
